@@ -22,6 +22,7 @@ RULE = (
     "leaves the constant open; this reading is weaker than any fixed-constant one). Non-trivial = c1 not parallel "
     "to c2 and m >= 2 (UPGrad: additionally the projection is active, i.e. A differs from the plain preference "
     "combination). Distinct = distinct (aggregator configuration, J, c1, c2, a, b)."
+    " ConFIG also on tall (m > n) matrices; half of the PCGrad cases run under torch.manual_seed only (no scripted randperm), on ONE instance."
 )
 ASSUMPTIONS = [
     "UPGrad defect constant C = 2 (calibrated worst 0.06) with the row-imbalance factor kappa",
